@@ -145,6 +145,15 @@ def decode_shard(ds, path: Path):
     return [sp.ident(e) for e in it.iterate_shard(path)]
 
 
+def reordered(v):
+    """An equal value whose dictionaries were filled in the opposite key order (at every depth)."""
+    if isinstance(v, dict):
+        return {k: reordered(x) for k, x in reversed(list(v.items()))}
+    if isinstance(v, list):
+        return [reordered(x) for x in v]
+    return v
+
+
 def run_impl(root: Path, fmt: str, eps: int, sessions, attrs, reopen: bool, md_shift: int = 0, select: bool = False):
     """Execute on the real API. Returns per-write records and the final per-split listing."""
     from sedpack.io import Dataset, Attribute
@@ -176,6 +185,9 @@ def run_impl(root: Path, fmt: str, eps: int, sessions, attrs, reopen: bool, md_s
                             styles[o] = o
                             objs[o] = dict(md_value(o + 1 + md_shift))
                         arg = objs[o]
+                        if ex % 2 == 1 and not any(x[0] == "mut" for x in ops):
+                            # the same value built along another code path: equal, but with another key insertion order
+                            arg = reordered(arg)
                     snap = copy.deepcopy(arg)
                     rec = {"split": s, "ex": ex, "kind": kind, "md": md_code(snap), "md_value": snap}
                     try:
